@@ -434,8 +434,10 @@ fn one_case(id: String, rng: &mut Rng, hostile: bool, mech: Mech) -> Case {
         c.fail(format!("{} phys→virt requests for a successfully constructed transport", p2v_reqs.len()));
         return c;
     }
-    // long enough and aligned for their use (specification: common cfg 56 bytes/4-aligned, notify 2/2, ISR 1, device 4-aligned)
-    for (k, (need, align)) in [(56usize, 4u64), (2, 2), (1, 1), (4, 4)].iter().enumerate() {
+    // long enough and aligned for their use: common cfg 56 bytes, 8-aligned (the specification asks for 4,
+    // but this driver writes queue_desc / queue_driver / queue_device with single 64-bit stores — see the
+    // W64 accesses of `queue_set` — so "suitably aligned for its use" is 8), notify 2/2, ISR 1, device 4
+    for (k, (need, align)) in [(56usize, 8u64), (2, 2), (1, 1), (4, 4)].iter().enumerate() {
         if let Some((p, s)) = p2v_reqs.get(k) {
             if *s < *need || p % align != 0 {
                 c.fail(format!("window P{} at {:#x} length {} is too short or misaligned for its use (needs {} bytes, alignment {})", k, p, s, need, align));
